@@ -188,6 +188,7 @@ func Prelude(li *LangInfo, native bool) string {
 	w("(assert (forall ((b Bytes)) (! (= (f_bcat b f_emptyB) b) :pattern ((f_bcat b f_emptyB)))))")
 	w("(assert (forall ((k Int)) (! (=> (>= k 0) (and (= (f_blen (f_zeros k)) k) (= (f_be (f_zeros k)) 0))) :pattern ((f_zeros k)))))")
 	w("(assert (= (f_zeros 0) f_emptyB))")
+	w("(assert (forall ((b Bytes) (o Int)) (! (= (f_bsub b o 0) f_emptyB) :pattern ((f_bsub b o 0)))))")
 	// big.Int.Bytes(): minimal-length big-endian magnitude
 	w("(assert (forall ((x Int)) (! (=> (>= x 0) (and (= (f_be (f_minbytes x)) x) (= (f_blen (f_minbytes x)) (f_minlen x)) (>= (f_minlen x) 0))) :pattern ((f_minbytes x)))))")
 	for k := 0; k <= 40; k++ {
@@ -294,6 +295,7 @@ func Prelude(li *LangInfo, native bool) string {
 	w("(declare-fun f_ravail (Int) Int)")        // bytes the source delivers before failing/ending
 	w("(declare-fun f_rseg (Int Int Int) Bytes)") // (reader, pos, n): the n bytes delivered from pos
 	w("(assert (forall ((r Int) (p Int) (n Int)) (! (=> (>= n 0) (= (f_blen (f_rseg r p n)) n)) :pattern ((f_rseg r p n)))))")
+	w("(assert (forall ((r Int) (p Int)) (! (= (f_rseg r p 0) f_emptyB) :pattern ((f_rseg r p 0)))))")
 	// --- languages and lists
 	nl := len(li.Names)
 	w("(define-fun f_supported ((l Int)) Bool (and (<= 0 l) (< l %d)))", nl)
